@@ -142,6 +142,24 @@ def _seg():
                         "(sum to T, non-negative, width-bounded, prefix-filled) and that 24*dow+hour is onto 0..167")
 
 
+def _settings():
+    return runner.PureSpec(
+        prop="C14", module="Settings", trace_module="SettingsTrace", driver="drivers.settings",
+        cfg={"quick": "Settings_quick.cfg", "thorough": "Settings_thorough.cfg"}, sample={"quick": None, "thorough": None},
+        variants=lambda tier, r, cin: ["-"], spec_files=["Settings.tla", "SettingsDefs.tla", "SettingsTable.tla", "SettingsTrace.tla"],
+        rule="exhaustive: every field of the current / legacy / billing / hourly trees x {approved value, a valid alternative, an invalid value} x "
+             "developer mode on/off x key spelling {plain, UPPER, padded} x {dict, nested object}, the four no-argument constructions, 14 cross-field "
+             "cases and the stored-settings cases; each builds a real DailyModel / BillingModel / HourlyModel; non-trivial = anything but re-stating a default",
+        assumptions=["spec/SettingsTable.tla pins the approved constants, developer flags and the alternative / invalid values; it was generated once from "
+                     "the code and committed, and is never regenerated by a check",
+                     "the hourly tree has no developer lock in the code or in the statement: for it the approved constants, acceptance of valid and "
+                     "rejection of invalid values are checked",
+                     "BillingModel is built on the legacy constants (BillingSettings is only used by BillingWeightedModel); its documents force "
+                     "developer_mode, which is ignored when comparing stored settings"],
+        invariants_note="MC config checks that every developer-only field has an alternative value (the lock is exercised for every such field), every "
+                        "field has an invalid value, and paths are unique per tree")
+
+
 class C06Entry:
     """C06 = Clock (hourly) + the row-per-timestamp and finiteness clauses of RowFrame (daily, billing)."""
 
@@ -176,7 +194,7 @@ class LifeEntry:
         return lifeprops.selftest(self.prop)
 
 
-_REG = {"C20": lambda: PureEntry(_window()), "C07": lambda: PureEntry(_rowframe("C07")), "C19": lambda: PureEntry(_agg()), "C06": lambda: C06Entry(), "C18": lambda: PureEntry(_seg())}
+_REG = {"C20": lambda: PureEntry(_window()), "C07": lambda: PureEntry(_rowframe("C07")), "C19": lambda: PureEntry(_agg()), "C06": lambda: C06Entry(), "C18": lambda: PureEntry(_seg()), "C14": lambda: PureEntry(_settings())}
 for _p in ("C01", "C02", "C03", "C04", "C05"):
     _REG[_p] = (lambda p: (lambda: LifeEntry(p)))(_p)
 
